@@ -17,7 +17,7 @@ from pathlib import Path
 
 from . import VERIF
 
-EVIDENCE = VERIF / 'evidence'
+EVIDENCE = Path(os.environ.get('FJV_EVIDENCE_DIR') or VERIF / 'evidence')   # tools/seedrun2.sh sends a seeded tree's evidence elsewhere
 REPLAYS = VERIF / 'replays'
 FINDINGS_FILE = VERIF / 'known_findings.json'
 
